@@ -280,6 +280,21 @@ class ForeignEval:
             if self.is_foreign(e.args[0], env):
                 return self.foreign_isinstance(e.args[1], fn)
             return None
+        if isinstance(e, ast.Call) and call_name(e) in ("any", "all") and len(e.args) == 1 and isinstance(e.args[0], (ast.GeneratorExp, ast.ListComp)) \
+                and len(e.args[0].generators) == 1 and isinstance(e.args[0].generators[0].iter, (ast.Tuple, ast.List)) \
+                and isinstance(e.args[0].generators[0].target, ast.Name) and not e.args[0].generators[0].ifs:
+            g = e.args[0].generators[0]
+            vals = []
+            for elt in g.iter.elts:
+                env2 = dict(env)
+                env2[g.target.id] = "FOREIGN" if self.is_foreign(elt, env) else "VAL"
+                vals.append(self.truth(e.args[0].elt, env2, fn, cls_ref, depth))
+            for v in vals:
+                if is_raise(v):
+                    return v
+            if call_name(e) == "any":
+                return True if any(v is True for v in vals) else (False if all(v is False for v in vals) else None)
+            return False if any(v is False for v in vals) else (True if all(v is True for v in vals) else None)
         if isinstance(e, ast.Compare) and len(e.ops) == 1:
             l, r = e.left, e.comparators[0]
             if isinstance(e.ops[0], (ast.Is, ast.IsNot)):
@@ -599,3 +614,36 @@ def membership(ev: ForeignEval, item_ref, container_ref, sentinel_ref, sentinel_
     if negate:
         return {FALSE: TRUE, TRUE: FALSE}.get(o, o)
     return o
+
+
+def feasible_nodes(ev: "ForeignEval", cfg, fn, start: int, env: dict, stop_at=None) -> set:
+    """CFG nodes reachable from `start` along edges that are feasible when the variables in `env` hold the FOREIGN sentinel:
+    at a test node whose condition has a definite truth value under that assumption only the matching edge is followed.
+    `stop_at(node)` -> True ends exploration at that node (e.g. the variable is re-read)."""
+    seen = {start}
+    work = [start]
+    while work:
+        u = work.pop()
+        node = cfg.nodes[u]
+        verdict = None
+        if node.kind == "test" and node.ast is not None:
+            try:
+                verdict = ev.truth(node.ast.test, dict(env), fn, None, 0)
+            except AnalysisError:
+                verdict = None
+            if is_raise(verdict):
+                verdict = "raise"
+        for v, cond in cfg.succ[u]:
+            if verdict in (True, False) and cond is not None and not isinstance(cond[0], str):
+                if cond[1] != verdict:
+                    continue
+            if verdict == "raise" and not (cond is not None and cond[0] == "<exc>"):
+                continue
+            if v in seen:
+                continue
+            if stop_at is not None and stop_at(cfg.nodes[v]):
+                seen.add(v)
+                continue
+            seen.add(v)
+            work.append(v)
+    return seen
